@@ -5,6 +5,7 @@
     h <hex>            → <Hash> only (bulk stream of the thorough tier)
     HN                 → <Hash64v2 nil> <Hash64V2 nil>
     HS <hex>           → <HashStr> <GetLongHash>
+    HT <hex>           → <hash.ToInt | panic> <hash.ToLong | panic>
     C <hex>            → bit-by-bit CRC-32 (the Spec), unsigned
     M <seed> <hex>     → <murmur32 seed> <murmur64 seed> <MurmurHash2 reference> <MurmurHash64A reference>
     ML <u64>           → <MurmurHashLong> <MurmurHash(uint32(u64))>
@@ -16,6 +17,7 @@
     IB <hex text>      → ToBytes(text) as hex
     II <int32>         → <ToBytesFrInt hex> <ToStringFrInt hex text>
     IT <hex>           → ToInt(bytes) | panic
+    IO <hex>           → <IsOK(bytes)> <IsNotLocal(bytes)>   (true|false)
   Text travels as the hex of its bytes.
 -/
 import Golib.Hash.Crc
@@ -106,6 +108,17 @@ def answer (line : String) : String :=
     | some bs => match IpUtil.toInt bs with
       | some v => s!"{v}"
       | none => "panic"
+    | none => "bad-op"
+  | ["HT", hex] =>
+    match ofHex hex with
+    | some bs =>
+      let a := match Hash.toInt bs with | some v => s!"{v}" | none => "panic"
+      let b := match Hash.toLong bs with | some v => s!"{v}" | none => "panic"
+      s!"{a} {b}"
+    | none => "bad-op"
+  | ["IO", hex] =>
+    match ofHex hex with
+    | some bs => s!"{IpUtil.isOK bs} {IpUtil.isNotLocal bs}"
     | none => "bad-op"
   | _ => "bad-op"
 
